@@ -6,7 +6,7 @@ from ..env import np, puan, pnd
 ID = "C19"
 RULE = ("Mode M: EVERY matrix [b|A] with 1..2 rows x 1..2 columns over {-1,0,1,2} (quick: 2x2 over {-1,0,1}; thorough adds 3x2 / 2x3 over {-1,0,1}) x EVERY points array of "
         "(the polyhedron OBJECT is reused from matrix to matrix by in-place assignment, plus a fresh object every 4th matrix) "
-        "ndim 1 (one point), ndim 2 (1..3 points), ndim 3 (1..2 groups x 1..2 points) over {-1,0,1}, handed over as C-ordered, Fortran-ordered and non-contiguous arrays in rotation, (over {0,1} where the product would exceed 100 arrays). oracle: direct A p >= b per point; "
+        "ndim 1 (one point), ndim 2 (1..3 points), ndim 3 (1..2 groups x 1..2 points) over {-1,0,1}, handed over as C-ordered, Fortran-ordered and non-contiguous arrays in rotation, (over {0,1} where the product would exceed 100 arrays). plus a family of large-magnitude rows / points (16-bit values times big coefficients, constants beyond 2^24 and 2^31, slack -1/0/+1). oracle: direct A p >= b per point (int64); "
         "ineqs_satisfied = all rows per point, separable = its negation, ineq_separate_points = per row 'some point of the group violates'; "
         "output shapes (), (n,), (g,n) resp. (r,), (r,), (g,r). non-trivial = distinct (matrix, points) with mixed verdicts")
 ASSUMPTIONS = ["points are integer arrays of the polyhedron's column count"]
@@ -54,8 +54,72 @@ def spaces(tier):
     return sp
 
 
-def shards(tier):
+BIGV = (32767, -32768, 20001, -20000, 4097, 1)
+BIGP = (32767, -32768, 19999, 20000, 1, 0)
+
+
+def big_cases():
+    """Large magnitudes (16-bit bounds times big-M sized coefficients): products and constants beyond 2^24 / 2^31 with a slack of -1, 0, +1."""
     out = []
+    for a1 in BIGV:
+        for a2 in BIGV:
+            for p1 in BIGP:
+                for p2 in BIGP:
+                    v = a1 * p1 + a2 * p2
+                    for d in (-1, 0, 1):
+                        out.append((np.array([[v + d, a1, a2], [0, 1, 1]], dtype=np.int64), np.array([p1, p2], dtype=np.int64)))
+    for bb in (2 ** 24 + 1, 2 ** 31 + 1, -(2 ** 24) - 1):
+        out.append((np.array([[bb, 1, 0]], dtype=np.int64), np.array([bb, 0], dtype=np.int64)))
+        out.append((np.array([[bb, 1, 0]], dtype=np.int64), np.array([bb - 1, 0], dtype=np.int64)))
+    return out
+
+
+_BC = []
+
+
+def bc():
+    if not _BC:
+        _BC.extend(big_cases())
+    return _BC
+
+
+def check_big(lo, hi, acc):
+    for k in range(lo, hi):
+        M, p = bc()[k]
+        P = pnd.ge_polyhedron(M.copy())
+        A, b = M[:, 1:], M[:, 0]
+        acc.n("traces")
+        acc.n("transitions", 9)
+        acc.state(("big", k))
+        p2 = np.array([p, p[::-1], p])
+        p3 = np.array([[p, p[::-1]], [p[::-1], p]])
+        for kind, pts in (("1d", p), ("2d", p2), ("3d", p3)):
+            flat = pts.reshape(-1, 2)
+            holds = (flat @ A.T >= b[None, :])
+            if kind == "1d":
+                want = (bool(holds.all()), not bool(holds.all()), (~holds).any(axis=0))
+            elif kind == "2d":
+                want = (holds.all(axis=1), ~holds.all(axis=1), (~holds).any(axis=0))
+            else:
+                h3 = holds.reshape(2, 2, -1)
+                want = (h3.all(axis=2), ~h3.all(axis=2), (~h3).any(axis=1))
+            try:
+                got = (P.ineqs_satisfied(pts.copy()), P.separable(pts.copy()), P.ineq_separate_points(pts.copy()))
+            except BaseException as e:
+                acc.violation(None, {"big": True, "k": k}, {"what": "classification API raised", "exc": repr(e), "matrix": M.tolist(), "points": pts.tolist()})
+                break
+            bad = [n for n, g, w in zip(("ineqs_satisfied", "separable", "ineq_separate_points"), got, want)
+                   if np.asarray(g).astype(bool).tolist() != np.asarray(w).astype(bool).tolist()]
+            if bad:
+                acc.violation(None, {"big": True, "k": k}, {"what": f"{bad[0]} differs from direct A p >= b", "matrix": M.tolist(), "points": pts.tolist(),
+                                                           "got": np.asarray(got[("ineqs_satisfied", "separable", "ineq_separate_points").index(bad[0])]).tolist()})
+                break
+        else:
+            acc.nontriv(("big", k))
+
+
+def shards(tier):
+    out = [("big", lo, min(len(bc()), lo + 400)) for lo in range(0, len(bc()), 400)]
     for si, (r, c, alpha, pv) in enumerate(spaces(tier)):
         n = len(alpha) ** (r * (c + 1))
         step = 64
@@ -64,6 +128,9 @@ def shards(tier):
 
 
 def run_shard(desc, acc, tier):
+    if desc[0] == "big":
+        check_big(desc[1], desc[2], acc)
+        return
     si, lo, hi = desc
     r, c, alpha, pv = spaces(tier)[si]
     shared = None
@@ -145,6 +212,9 @@ def check_matrix(M, c, pv, acc, case, only=None, P=None):
 
 
 def replay(case, acc):
+    if case.get("big"):
+        check_big(case["k"], case["k"] + 1, acc)
+        return
     r, c, alpha, pv = spaces(case["tier"])[case["si"]]
     if case.get("shared"):
         # re-create the history: the shared object has seen every matrix of the shard from `lo` up to `mi`
